@@ -81,12 +81,15 @@ func (e *Exec) callsiteChecks(st *State, fn *types.Func, recv *Val, args []Val, 
 		return
 	}
 	pkgPath, key := contractKey(fn)
-	// ghost flags for called("callee") in this contract
-	for _, tracked := range fc.trackedCallees() {
-		if tracked == key || tracked == shortName(pkgPath)+"."+key {
-			st.ghosts["called:"+tracked] = Val{T: True}
+	// ghost flags for called("callee") in this contract are set AFTER the assertions of this call have been
+	// evaluated: inside a clause, called("f") speaks about the calls made before this one
+	defer func() {
+		for _, tracked := range fc.trackedCallees() {
+			if tracked == key || tracked == shortName(pkgPath)+"."+key {
+				st.ghosts["called:"+tracked] = Val{T: True}
+			}
 		}
-	}
+	}()
 	var tracks []trackUpd
 	for _, c := range fc.Sites {
 		if c.LoopKey != key && c.LoopKey != shortName(pkgPath)+"."+key {
